@@ -8,6 +8,7 @@
 # Output: /tmp/gate/report.txt (also printed). Nothing is changed in /repo.
 set -u
 CHECKS=$1; shift
+PATCHES=(); for p in "$@"; do PATCHES+=("$(realpath "$p")"); done
 WT=/tmp/gate/wt
 mkdir -p /tmp/gate
 exec 9>/tmp/gate/lock; flock 9
@@ -16,7 +17,7 @@ if [ ! -d "$WT" ]; then git -C /repo worktree add -q --detach "$WT" HEAD || exit
 cd "$WT"; git checkout -q -- . ; git clean -fdq; git checkout -q --detach "$(git -C /repo rev-parse HEAD)"
 R=/tmp/gate/report.txt; : > $R
 echo "gate on /repo $HEAD: $*" >> $R
-for p in "$@"; do
+for p in "${PATCHES[@]}"; do
   grep -v '^#' "$p" > /tmp/gate/p.diff
   if git apply /tmp/gate/p.diff 2>/tmp/gate/apply.log; then echo "applied $(basename $p)" >> $R; else echo "DOES NOT APPLY: $(basename $p): $(head -2 /tmp/gate/apply.log)" >> $R; cat $R; exit 3; fi
 done
